@@ -69,6 +69,12 @@ def gen_cases(seed, tier):
             if i % 16 == 3: cases.append((dict(files), root, victim, 'control'))
             kind, files[victim] = malsrc.trailing_input(files[victim], r, ['surplus', 'misspelt', 'tokens', 'lexerror'][(i // 4) % 4])
             cases.append((files, root, victim, 'trailing:' + kind + (':included' if victim != root else '')))
+        elif i % 10 == 7:
+            # an error at the very first token of a file (its first character deleted or replaced): the parser is in
+            # its initial state when it meets it, which is where state kept from an earlier failed compile shows
+            txt = files[victim].lstrip()
+            files[victim] = (txt[1:] if r.random() < 0.5 else r.choice(['}', ')', ',', '->']) + ' ' + txt)
+            cases.append((files, root, victim, 'mutant'))
         else:
             files[victim] = malsrc.mutate(files[victim], r)
             cases.append((files, root, victim, 'mutant'))
